@@ -6,6 +6,7 @@ CONSTANTS
   MaxN = 4
   ScratchSize = "asfound"
   Finished = "last"
+  GrowLoop = "while"
   EarlyExit = TRUE
 INVARIANT CodesOk
 INVARIANT Refines
